@@ -806,8 +806,8 @@ def linspace(
     """
     return Tensor(
         np.linspace(
-            start,
-            stop,
+            _anything_but_tensor(start),
+            _anything_but_tensor(stop),
             num,
             endpoint=endpoint,
             dtype=dtype,
@@ -901,11 +901,11 @@ def logspace(
     """
     return Tensor(
         np.logspace(
-            start=start,
-            stop=stop,
+            start=_anything_but_tensor(start),
+            stop=_anything_but_tensor(stop),
             num=num,
             endpoint=endpoint,
-            base=base,
+            base=_anything_but_tensor(base),
             dtype=dtype,
             axis=axis,
         ),
@@ -1005,8 +1005,8 @@ def geomspace(
     """
     return Tensor(
         np.geomspace(
-            start=start,
-            stop=stop,
+            start=_anything_but_tensor(start),
+            stop=_anything_but_tensor(stop),
             num=num,
             endpoint=endpoint,
             dtype=dtype,
